@@ -107,6 +107,17 @@ def run(ctx):
         for _ in range(m):
             code = rng.choice(G.PARAM_FREE); f, c = G.gen(rng, code); parts.append((code, f))
         seqs.append((tr, parts))
+    # near-twins: objects with equal dimensions and close but different real-valued parameters, read one after the other in one process
+    # (an importer that shares or caches parameter objects between imports must not confuse them); both orders, both transports
+    d = G.d2b; AM = d(0.012467)
+    twins = [[(1, [630, d(2.0**-15), AM]), (1, [630, d(3.0518e-05), AM])], [(4, [1024, 1, d(7.18e-9), AM]), (4, [1024, 1, d(2.0**-25), AM])],
+             [(7, [1024, 1, d(7.18e-9), AM, 2, 10]), (7, [1024, 1, d(2.0**-25), AM, 2, 10])], [(7, [1024, 1, d(7.18e-9), AM, 2, 10]), (7, [1024, 1, d(2.0**-25), AM, 3, 7])],
+             [(12, [8, 2, 500, d(2.44e-5), AM, 1024, 1, d(7.18e-9), AM, 2, 10]), (12, [8, 2, 630, d(2.0**-15), AM, 1024, 1, d(2.0**-25), AM, 3, 7])],
+             [(6, [4, 1, d(1e-9), d(0.25), 1, 0, 1, 1]), (6, [4, 1, d(1.5e-9), d(0.25), 0, 0, 1, 0]), (4, [4, 1, d(1e-9), d(0.25) + 1])],
+             [(9, [2, 1, d(1e-12), AM, 2, 10, 1, 0]), (9, [2, 1, d(2e-12), AM, 2, 10, 0, 1])], [(1, [500, d(2.44e-5), AM]), (12, [8, 2, 500, d(2.44e-5) + 1, AM, 1024, 1, d(7.18e-9), AM, 2, 10]), (1, [500, d(2.44e-5) + 2, AM])]]
+    for tw in twins:
+        for order in (tw, tw[::-1]):
+            seqs.append((rng.randrange(2), list(order)))
     pl = ['cexp %d %d %s' % (code, tr, ' '.join(map(str, f))) for (tr, parts) in seqs for (code, f) in parts]
     pb = vlib.run_lines(exe, pl, timeout=600); it = iter(pb)
     sl = []; swant = []
